@@ -1882,6 +1882,114 @@ def expand_value_lookups(trees: Dict[str, ast.Module], max_rows: int = 12) -> in
 
 
 # ---------------------------------------------------------------------------
+# opts = {'a': x, 'b': y}; opts['c'] = z; f(p, **opts)      is read as      f(p, a=x, b=y, c=z)
+# ---------------------------------------------------------------------------
+def fold_keyword_dicts(trees: Dict[str, ast.Module]) -> int:
+    """(a) `if True: B` / `if False: .. else: B` left behind by expanding a helper at a constant argument is B;
+    (b) a local bound to a dict display with identifier keys, extended right away by  d['k'] = v  statements, is the larger display;
+    (c) such a local, bound once, read once - as `**d` in a call of the statement that follows the binding (nothing but `pass` and
+        plain copies of other names in between) - and whose values are names, attribute chains and constants, is the keywords it spells; the binding goes.
+    Returns the number of rewrites."""
+    done = 0
+
+    def simple(e):
+        return isinstance(e, (ast.Name, ast.Constant)) or (isinstance(e, ast.Attribute) and _chain(e))
+
+    def ident_dict(v):
+        return isinstance(v, ast.Dict) and all(isinstance(k, ast.Constant) and isinstance(k.value, str) and k.value.isidentifier() for k in v.keys)
+
+    def block(body, fn):
+        nonlocal done
+        out: List[ast.stmt] = []
+        flat: List[ast.stmt] = []
+        for s_ in body:
+            for fld in ("body", "orelse", "finalbody"):
+                b = getattr(s_, fld, None)
+                if isinstance(b, list) and b and isinstance(b[0], ast.stmt) and not isinstance(s_, (ast.FunctionDef, ast.ClassDef)):
+                    setattr(s_, fld, block(b, fn))
+            for h in getattr(s_, "handlers", []) or []:
+                h.body = block(h.body, fn)
+            if isinstance(s_, ast.If) and isinstance(s_.test, ast.Constant) and isinstance(s_.test.value, bool):
+                flat.extend(s_.body if s_.test.value else s_.orelse)
+                done += 1
+                continue
+            # a, b = (x, y)  with plain values that none of the targets occurs in: one assignment each
+            if (isinstance(s_, ast.Assign) and len(s_.targets) == 1 and isinstance(s_.targets[0], ast.Tuple) and isinstance(s_.value, ast.Tuple)
+                    and len(s_.targets[0].elts) == len(s_.value.elts) and all(isinstance(e, ast.Name) for e in s_.targets[0].elts)
+                    and len({e.id for e in s_.targets[0].elts}) == len(s_.targets[0].elts) and all(simple(v) for v in s_.value.elts)
+                    and not ({e.id for e in s_.targets[0].elts} & {x.id for v in s_.value.elts for x in ast.walk(v) if isinstance(x, ast.Name)})):
+                for e, v in zip(s_.targets[0].elts, s_.value.elts):
+                    a_ = ast.Assign(targets=[ast.Name(id=e.id, ctx=ast.Store())], value=v)
+                    ast.copy_location(a_, s_)
+                    ast.fix_missing_locations(a_)
+                    flat.append(a_)
+                done += 1
+                continue
+            flat.append(s_)
+        for s_ in flat:
+            prev = out[-1] if out else None
+            if (isinstance(s_, ast.Assign) and len(s_.targets) == 1 and isinstance(s_.targets[0], ast.Subscript) and isinstance(s_.targets[0].value, ast.Name)
+                    and isinstance(s_.targets[0].slice, ast.Constant) and isinstance(s_.targets[0].slice.value, str) and s_.targets[0].slice.value.isidentifier()
+                    and isinstance(prev, ast.Assign) and len(prev.targets) == 1 and isinstance(prev.targets[0], ast.Name) and prev.targets[0].id == s_.targets[0].value.id
+                    and ident_dict(prev.value) and s_.targets[0].slice.value not in {k.value for k in prev.value.keys}
+                    and not any(isinstance(x, ast.Name) and x.id == prev.targets[0].id for x in ast.walk(s_.value))):
+                prev.value.keys.append(ast.Constant(value=s_.targets[0].slice.value))
+                prev.value.values.append(s_.value)
+                ast.fix_missing_locations(prev)
+                done += 1
+                continue
+            out.append(s_)
+        return out or [ast.Pass()]
+
+    def block_c(body, fn):
+        nonlocal done
+        out = []
+        for s_ in body:
+            for fld in ("body", "orelse", "finalbody"):
+                b = getattr(s_, fld, None)
+                if isinstance(b, list) and b and isinstance(b[0], ast.stmt) and not isinstance(s_, (ast.FunctionDef, ast.ClassDef)):
+                    setattr(s_, fld, block_c(b, fn))
+            for h in getattr(s_, "handlers", []) or []:
+                h.body = block_c(h.body, fn)
+            out.append(s_)
+        i = 0
+        while i < len(out):
+            s_ = out[i]
+            if isinstance(s_, ast.Assign) and len(s_.targets) == 1 and isinstance(s_.targets[0], ast.Name) and ident_dict(s_.value) and s_.value.keys and all(simple(v) for v in s_.value.values):
+                d = s_.targets[0].id
+                stores = sum(1 for x in ast.walk(fn) if isinstance(x, ast.Name) and x.id == d and isinstance(x.ctx, ast.Store))
+                loads = [x for x in ast.walk(fn) if isinstance(x, ast.Name) and x.id == d and isinstance(x.ctx, ast.Load)]
+                j = i + 1
+                read = {x.id for v in s_.value.values for x in ast.walk(v) if isinstance(x, ast.Name)}
+                while j < len(out) and (isinstance(out[j], ast.Pass) or (
+                        isinstance(out[j], ast.Assign) and len(out[j].targets) == 1 and isinstance(out[j].targets[0], ast.Name) and simple(out[j].value)
+                        and out[j].targets[0].id not in read | {d} and not any(isinstance(x, ast.Name) and x.id == d for x in ast.walk(out[j].value)))):
+                    j += 1  # plain copies of names / attributes in between do not care when the display is evaluated
+                if stores == 1 and len(loads) == 1 and j < len(out) and isinstance(out[j], (ast.Assign, ast.Expr, ast.Return, ast.AugAssign)):
+                    for c in ast.walk(out[j]):
+                        if isinstance(c, ast.Call) and any(k.arg is None and k.value is loads[0] for k in c.keywords):
+                            given = {k.arg for k in c.keywords if k.arg}
+                            if given & {k.value for k in s_.value.keys}:
+                                break
+                            idx = next(n for n, k in enumerate(c.keywords) if k.arg is None and k.value is loads[0])
+                            c.keywords[idx:idx + 1] = [ast.keyword(arg=k.value, value=v) for k, v in zip(s_.value.keys, s_.value.values)]
+                            ast.fix_missing_locations(c)
+                            del out[i]
+                            done += 1
+                            i -= 1
+                            break
+            i += 1
+        return out or [ast.Pass()]
+
+    for t in trees.values():
+        for fn in ast.walk(t):
+            if isinstance(fn, ast.FunctionDef):
+                fn.body = block(fn.body, fn)
+                fn.body = block_c(fn.body, fn)
+    return done
+
+
+# ---------------------------------------------------------------------------
 # r = f(*self.g())      with g returning k values on every return      is read as      a, b, c = self.g(); r = f(a, b, c)
 # ---------------------------------------------------------------------------
 def expand_star_calls(trees: Dict[str, ast.Module]) -> int:
@@ -1919,7 +2027,7 @@ def expand_star_calls(trees: Dict[str, ast.Module]) -> int:
             call = s_.value if isinstance(s_, (ast.Assign, ast.Expr, ast.Return)) and isinstance(getattr(s_, "value", None), ast.Call) else None
             stars = [a for a in call.args if isinstance(a, ast.Starred)] if call is not None else []
             if len(stars) == 1 and isinstance(stars[0].value, ast.Call) and all(simple(a) for a in call.args if a is not stars[0]) \
-                    and all(k.arg is not None and simple(k.value) for k in call.keywords):
+                    and all(simple(k.value) for k in call.keywords):
                 g = stars[0].value
                 gname = g.func.attr if isinstance(g.func, ast.Attribute) else (g.func.id if isinstance(g.func, ast.Name) else None)
                 ks = arity.get(gname)
